@@ -11,6 +11,7 @@ import json
 import os
 import random
 
+import structure
 from common import Report, ToolError, chars, check_action_coverage, log, run_cases, run_tlc, stable_hash, std_main
 
 
@@ -137,6 +138,8 @@ def runner(rep, tier, seed, replay):
         if res.get("timed_out") or items not in ([["IT", w] for w in words], [["IT", w] for w in words if w != ""]):
             rep.violation("for-list", "`for f in %s`: items %s, expected %s" % (t, [i[1:] for i in items], words),
                           {"kind": "for", "line": "for f in " + t, "case": {"t": t}, "got": items}, {"kind": "for", "t": t})
+    # ---- the same lines as the head of `if` / `else if` / `while` (separate code path: run_exp_test_br)
+    structure.check_heads(rep, [j for j, m in zip(jobs, meta) if not m[7]], rnd, 120 if tier == "quick" else 1500, "C12")
     results = run_cases(jobs)
     distinct = set()
     for (kind, key, line, b, a, words, case, neg, alts), j, res in zip(meta, jobs, results):
